@@ -19,6 +19,8 @@ PLANS = {
                       E('C18S', 'asan', 60, 30, seed_offset=800000, run_wall_s=120)],
             'thorough': [E('C18', 'plain', 100000, 1200, tier=1), E('C18', 'asan', 20000, 1200, seed_offset=500000, tier=1),
                          E('C18S', 'plain', 20000, 1800, seed_offset=700000), E('C18S', 'asan', 2000, 900, seed_offset=800000, run_wall_s=300)]},
+    'C19': {'quick': [E('C19', 'plain', 3000, 40), E('C19', 'asan', 400, 40, seed_offset=500000)],
+            'thorough': [E('C19', 'plain', 100000, 2400, tier=1), E('C19', 'asan', 10000, 1800, seed_offset=500000, tier=1)]},
     # C07: monitor inside searches (plain + asan) and the same seeds in every SIMD build variant (hashes must agree)
     'C07': {'quick': [E('C07', 'plain', 480, 60, compare_group='simd'), E('C07', 'plain-ssse3', 480, 60, compare_group='simd'),
                       E('C07', 'plain-avx2', 480, 60, compare_group='simd'), E('C07', 'plain-avx512', 480, 60, compare_group='simd'),
